@@ -40,7 +40,12 @@ func (v *Vue) evalTemplate(ctx VueContext, nodes []*html.Node, componentData map
 			delete(vars, "include")
 
 			// auto decode params as json, e.g. `data="{...}"` or `[...]`
+			// (written in the tag: a bound value keeps the type it has, also when it is a
+			// string that looks like JSON)
 			for k, v := range vars {
+				if helpers.HasAttr(node, ":"+k) || helpers.HasAttr(node, "v-bind:"+k) {
+					continue
+				}
 				if vs, ok := v.(string); ok {
 					if strings.HasPrefix(vs, "{") || strings.HasPrefix(vs, "[") {
 						var out any
